@@ -40,6 +40,7 @@ type c06Case struct {
 	V       int64             `json:"v,omitempty"`
 	From    string            `json:"from,omitempty"`
 	To      string            `json:"to,omitempty"`
+	Rel     bool              `json:"relative_percentages,omitempty"`
 }
 
 // ---------- token helpers ----------
@@ -996,6 +997,86 @@ func c06CliEval(c *Ctx, cs c06Case, res cliOut) {
 	}
 }
 
+// ---------- pprof -top: which total the percentages refer to ----------
+
+var topTotalRx = regexp.MustCompile(`of (\S+) total`)
+
+// runPprofTop runs `pprof -top` with the filter options and returns the "of N total" figure.
+func runPprofTop(pprofBin, dir string, idx int, p *profile.Profile, opts map[string]string, rel bool) (string, string) {
+	in := filepath.Join(dir, fmt.Sprintf("top-%d.pb.gz", idx))
+	f, err := os.Create(in)
+	if err != nil {
+		return "", "harness: " + err.Error()
+	}
+	if err := p.Write(f); err != nil {
+		f.Close()
+		return "", "harness: " + err.Error()
+	}
+	f.Close()
+	defer os.Remove(in)
+	args := []string{"-top", "-symbolize=none"}
+	if rel {
+		args = append(args, "-relative_percentages")
+	}
+	for _, k := range c06CliOpts {
+		if v := opts[k]; v != "" {
+			args = append(args, "-"+k+"="+v)
+		}
+	}
+	args = append(args, in)
+	cmd := exec.Command(pprofBin, args...)
+	cmd.Env = append(os.Environ(), "PPROF_BINARY_PATH="+filepath.Join(dir, "nobin"), "PPROF_TMPDIR="+dir, "HOME="+dir)
+	var stdout, stderr bytes.Buffer
+	cmd.Stdout, cmd.Stderr = &stdout, &stderr
+	if err := cmd.Run(); err != nil {
+		return "", "exit: " + trunc(stderr.String())
+	}
+	m := topTotalRx.FindStringSubmatch(stdout.String())
+	if m == nil {
+		return "", "no total line: " + trunc(stdout.String())
+	}
+	return m[1], ""
+}
+
+// c06TopEval: without relative_percentages the total shown is the unfiltered total, with it the
+// total of the samples the filters keep (both taken from the Spec's `total`, last sample type).
+func c06TopEval(c *Ctx, cs c06Case, got, errs string) {
+	p, err := ParseCanon(cs.Profile)
+	if err != nil {
+		c.Res.HarnessError = "ParseCanon: " + err.Error()
+		return
+	}
+	if strings.HasPrefix(errs, "harness") {
+		c.Res.HarnessError = errs
+		return
+	}
+	ot, ok := optsTok(cs.Opts, p)
+	if !ok {
+		return
+	}
+	col := len(p.SampleType) - 1
+	want := c.Drv.Ask(fmt.Sprintf("total %d %s", col, cs.Profile))
+	if cs.Rel {
+		rep := c.Drv.Ask("apply.model " + ot + " " + cs.Profile)
+		if !strings.HasPrefix(rep, "ok ") {
+			return
+		}
+		want = c.Drv.Ask(fmt.Sprintf("total %d %s", col, rep[3:strings.Index(rep, " | ")]))
+	}
+	c.Res.ModelCompared++
+	if errs != "" {
+		c.Violation("C06/top/"+firstWord(errs), "pprof -top with filter options fails: "+errs, cs)
+		return
+	}
+	if got != want {
+		which := "unfiltered"
+		if cs.Rel {
+			which = "filtered"
+		}
+		c.Violation("C06/top/total-"+which, fmt.Sprintf("pprof -top %v relative_percentages=%v reports 'of %s total', the %s total is %s", cs.Opts, cs.Rel, got, which, want), cs)
+	}
+}
+
 // ---------- generators ----------
 
 var c06Names = []string{"sa", "sb", "fa", "fb", "ha", "hb", "main", "m.run", "lib.foo", "lib.bar(int)", "std::v<int>::p", "x"}
@@ -1360,13 +1441,27 @@ func runC06Case(c *Ctx, cs c06Case) {
 		}
 		defer os.RemoveAll(dir)
 		c06CliEval(c, cs, runPprofProto(c.Pprof, dir, 0, p, cs.Opts))
+	case "top":
+		p, err := ParseCanon(cs.Profile)
+		if err != nil {
+			c.Res.HarnessError = err.Error()
+			return
+		}
+		dir, err := os.MkdirTemp("", "pv-c06-")
+		if err != nil {
+			c.Res.HarnessError = err.Error()
+			return
+		}
+		defer os.RemoveAll(dir)
+		got, errs := runPprofTop(c.Pprof, dir, 0, p, cs.Opts, cs.Rel)
+		c06TopEval(c, cs, got, errs)
 	default:
 		c.Res.HarnessError = "unknown case kind " + cs.Kind
 	}
 }
 
 func runC06(c *Ctx) {
-	c.Res.Rule = "profiles with inlined multi-line locations, shared locations, unsymbolized locations, empty stacks, mapping files and labels with units; expressions from a grammar (literal, anchored, alternation, class, substring, match-all, match-none, case-insensitive; numeric ranges a, a:, :b, a:b with signs and units, key=…); streams: name filters (all 16 on/off combinations of focus/ignore/hide/show), focus=R/ignore=R partition, show_from (main stream = inputs satisfying the hypothesis of showFrom_spec_partial, the rest on the known-finding stream), tagshow/taghide, FilterSamplesByTag with label predicates, measurement.Scale, and `pprof -proto` with 1–4 of the 9 filter options. non-trivial = some expression of the case matches at least one but not all locations in use (name/show_from/cli), some but not all label keys (tags), or the predicate selects some but not all samples (bytag); distinct by options + canonical profile"
+	c.Res.Rule = "profiles with inlined multi-line locations, shared locations, unsymbolized locations, empty stacks, mapping files and labels with units; expressions from a grammar (literal, anchored, alternation, class, substring, match-all, match-none, case-insensitive; numeric ranges a, a:, :b, a:b with signs and units, key=…); streams: name filters (all 16 on/off combinations of focus/ignore/hide/show), focus=R/ignore=R partition, show_from (main stream = inputs satisfying the hypothesis of showFrom_spec_partial, the rest on the known-finding stream), tagshow/taghide, FilterSamplesByTag with label predicates, measurement.Scale, `pprof -proto` with 1–4 of the 9 filter options, and `pprof -top` with and without -relative_percentages (which total the header reports). non-trivial = some expression of the case matches at least one but not all locations in use (name/show_from/cli), some but not all label keys (tags), or the predicate selects some but not all samples (bytag); distinct by options + canonical profile"
 	if c.Replay != "" {
 		var cs c06Case
 		if err := c.LoadReplay(&cs); err != nil {
@@ -1591,5 +1686,50 @@ func runC06(c *Ctx) {
 			c.Res.Sample(map[string]any{"kind": "cli", "opts": cs.Opts, "shape": describe(p)})
 		}
 		c06CliEval(c, cs, outs[i])
+	}
+	// ---- pprof -top with and without relative_percentages
+	nTop := 80 * c.Scale
+	tcases := make([]c06Case, nTop)
+	tprofs := make([]*profile.Profile, nTop)
+	for i := range tcases {
+		p := genC06Profile(r, true)
+		var buf bytes.Buffer
+		p.Write(&buf)
+		p, err = profile.ParseData(buf.Bytes())
+		if err != nil {
+			c.Res.HarnessError = "generated profile does not round-trip: " + err.Error()
+			return
+		}
+		opts := map[string]string{}
+		k := []string{"focus", "ignore", "tagfocus", "tagignore", "hide", "show_from"}[i%6]
+		switch k {
+		case "tagfocus", "tagignore":
+			opts[k] = genTagFilter(r, p, false)
+		default:
+			opts[k] = genRx(r, fnNames(p))
+		}
+		tcases[i] = c06Case{Kind: "top", Stream: "main", Profile: Canon(p), Opts: opts, Rel: i%2 == 1}
+		tprofs[i] = p
+	}
+	tgot := make([][2]string, nTop)
+	for i := range tcases {
+		wg.Add(1)
+		sem <- struct{}{}
+		go func(i int) {
+			defer wg.Done()
+			defer func() { <-sem }()
+			g, e := runPprofTop(c.Pprof, dir, i, tprofs[i], tcases[i].Opts, tcases[i].Rel)
+			tgot[i] = [2]string{g, e}
+		}(i)
+	}
+	wg.Wait()
+	for i, cs := range tcases {
+		c.Res.Hit(fmt.Sprintf("top:relative_percentages=%v", cs.Rel))
+		full := c.Drv.Ask(fmt.Sprintf("total %d %s", len(tprofs[i].SampleType)-1, cs.Profile))
+		c.Res.Count(caseKey(cs)+fmt.Sprint(cs.Rel), tgot[i][0] != full || !cs.Rel)
+		if cs.Rel && tgot[i][0] != full {
+			c.Res.Hit("top:filtered-total-differs-from-unfiltered")
+		}
+		c06TopEval(c, cs, tgot[i][0], tgot[i][1])
 	}
 }
